@@ -1287,12 +1287,7 @@ class AstEval:
                     match = True
                 if match:
                     if handler.name is not None:
-                        if handler.name in self.sym_table and isinstance(
-                            self.sym_table[handler.name], EvalLocalVar
-                        ):
-                            self.sym_table[handler.name].set(err)
-                        else:
-                            self.sym_table[handler.name] = err
+                        await self.recurse_assign(ast.Name(id=handler.name, ctx=ast.Store()), err)
                     try:
                         for arg1 in handler.body:
                             val = await self.aeval(arg1)
@@ -1301,7 +1296,9 @@ class AstEval:
                     finally:
                         if handler.name is not None:
                             # the name is unbound at the end of the clause; a closure's variable stays shared
-                            if isinstance(self.sym_table.get(handler.name), EvalLocalVar):
+                            if self.curr_func and handler.name in self.curr_func.global_names:
+                                self.global_sym_table.pop(handler.name, None)
+                            elif isinstance(self.sym_table.get(handler.name), EvalLocalVar):
                                 self.sym_table[handler.name].set_undefined()
                             else:
                                 self.sym_table.pop(handler.name, None)
